@@ -56,6 +56,31 @@ class SymDate:
     def days_since_epoch(self):
         return self.ordinal - EPOCH_ORD
 
+    def _civil(self):
+        """(year, month, day) of the proleptic Gregorian ordinal as terms over it (days-to-civil, all divisors constant)"""
+        z = self.ordinal + 305                     # days since 0000-03-01
+        era = z // 146097
+        doe = z - era * 146097
+        yoe = (doe - doe // 1460 + doe // 36524 - doe // 146096) // 365
+        doy = doe - (365 * yoe + yoe // 4 - yoe // 100)
+        mp = (5 * doy + 2) // 153
+        d = doy - (153 * mp + 2) // 5 + 1
+        m = P.ite(P._bt(mp < 10), mp + 3, mp - 9)
+        y = yoe + era * 400 + P.ite(P._bt(m <= 2), 1, 0)
+        return y, m, d
+
+    @property
+    def year(self):
+        return self._civil()[0]
+
+    @property
+    def month(self):
+        return self._civil()[1]
+
+    @property
+    def day(self):
+        return self._civil()[2]
+
     def __sub__(self, o):
         if isinstance(o, _dt.date):
             return SymTimedelta(self.ordinal - o.toordinal())
